@@ -29,6 +29,15 @@ def depends_on(kinds, reads, i, marked, seen=None):
     return False
 
 
+def value_depends_on(kinds, reads, j, i, seen=None):
+    """does the VALUE of j depend on variable i?  (the value of a state is given; only its rate reads things)"""
+    seen = seen or set()
+    if j == 't' or j in seen or kinds[j] == 'S':
+        return False
+    seen.add(j)
+    return any(k == i or value_depends_on(kinds, reads, k, i, seen) for k in reads[j] if k != 't')
+
+
 class Runner:
     def __init__(self, opts):
         self.n = int(opts.get('n', '2'))
@@ -112,6 +121,30 @@ class Runner:
         self._cases = cs
         return cs
 
+    def sdep_cases(self):
+        """An external variable whose declared dependency is a state or depends on one: its callback value moves with the states, so
+        whatever reads it must be computed again by computeVariables(). n <= 3, <= 2 read edges for n = 3, single home marking."""
+        if getattr(self, '_sdep', None) is not None:
+            return self._sdep
+        cs = []
+        for n in (2, 3):
+            for kinds, reads in D.graphs(n, 2 if n == 3 else None):
+                if 'C' in kinds or 'G' in kinds or 'S' not in kinds:
+                    continue
+                for place in D.placements(n):
+                    if self.lean and len(set(place)) > 1 and place != tuple(i % 2 for i in range(n)):
+                        continue  # quick: one component, or the alternating placement
+                    for i in range(n):
+                        if kinds[i] == 'S':
+                            continue
+                        if not any(i in reads[k] for k in range(n) if k != i):
+                            continue  # nothing reads the marked variable: nothing can go stale
+                        for j in range(n):
+                            if j != i and not value_depends_on(kinds, reads, j, i) and D.state_dependent(kinds, reads, j):
+                                cs.append((kinds, reads, place, (('home', i),), ('var', j), None, 0))
+        self._sdep = cs
+        return cs
+
 
 def families(opts):
     r = Runner(opts)
@@ -121,7 +154,12 @@ def families(opts):
         return {'layout': rn, 'kinds': ''.join(kinds), 'reads': [sorted(map(str, x)) for x in reads], 'place': list(place), 'marked': [list(x) for x in m], 'dependency': list(d) if d else None, 'dropped_equation_of': drop}
 
     def run_ext(ci, ctx):
-        case = r.cases()[ci]
+        run_case(r.cases()[ci], ci, ctx)
+
+    def run_sdep(ci, ctx):
+        run_case(r.sdep_cases()[ci], ci, ctx)
+
+    def run_case(case, ci, ctx):
         kinds, reads, place, m, d, drop, rn = case
         n = len(kinds)
         desc = describe(case)
@@ -264,6 +302,18 @@ def families(opts):
                 idx[L.class_of(e['comp'], e['var'])] = (arr, e['index'])
         ext_index = {idx[i][1]: i for i in want_ext if i in idx}
         dep_classes = [d[1]] if d and d[0] == 'var' else [d[1], d[2]] if d and d[0] == 'vars' else []
+        # second evaluation point (what an integrator does between outputs): the states move, voi stays, ONLY computeVariables
+        # runs. An external variable with a declared dependency that depends on a state answers differently there (its value is
+        # a function of what it depends on); every other value must match the equations at the new states.
+        cur = {'ref': ref, 'ext': dict(EXTVAL)}
+        second = ref2 = None
+        if 'S' in kinds and 'G' not in kinds and not any(kinds[i] == 'S' for i in want_ext) and all(i in idx for i in range(n) if kinds[i] == 'S'):
+            ext2 = dict(EXTVAL)
+            first_cls = m[0][1] if m and m[0][0] not in ('foreign', 'voi') and isinstance(m[0][1], int) else None
+            if first_cls in want_ext and any(D.state_dependent(kinds, reads, dc) for dc in dep_classes):
+                ext2[first_cls] = EXTVAL[first_cls] + 0.125
+            ref2 = D.values(kinds, reads, ext={i: ext2[i] for i in want_ext}, init=D.INIT2)
+            second = {'states': {idx[i][1]: D.INIT2[i] for i in range(n) if kinds[i] == 'S'}, 'before': lambda: cur.update(ref=ref2, ext=ext2)}
 
         def nla(obj, u, nn, arrays):
             if 'G' in kinds:
@@ -297,7 +347,7 @@ def families(opts):
             for sv in sent:
                 hit = [k for k, x in enumerate(vs) if x == sv]
                 cls = next((c for c, (a, ix) in idx.items() if a == 'variables' and hit and ix == hit[0]), None)
-                want.append(ref[cls] if cls is not None and not isinstance(ref.get(cls), tuple) else float('nan'))
+                want.append(cur['ref'][cls] if cls is not None and not isinstance(cur['ref'].get(cls), tuple) else float('nan'))
             f = obj(want)
             for fi in f:
                 if not abs(fi) <= 1e-9 and 'G' not in kinds:
@@ -312,16 +362,18 @@ def families(opts):
                     if dc in idx:
                         a, ix = idx[dc]
                         snap[dc] = arrays[a][ix]
-                calls.append((index, snap))
+                calls.append((index, snap, cur['ref']))
                 cls = ext_index.get(index)
-                return EXTVAL[cls] if cls is not None else -777.0
+                return cur['ext'][cls] if cls is not None else -777.0
             try:
                 if prof == 'C':
                     so, cdir = X.compile_c(res['c_h'], res['c_c'], r.work(), 'e', strict=False)
-                    out = X.CRun(so, res['c_h']).run(voi=D.VOI, nla=nla, ext=cb)
+                    cur.update(ref=ref, ext=dict(EXTVAL))
+                    out = X.CRun(so, res['c_h']).run(voi=D.VOI, nla=nla, ext=cb, second=second)
                     shutil.rmtree(cdir, ignore_errors=True)
                 else:
-                    out = X.PyRun(res['py']).run(voi=D.VOI, nla=nla, ext=cb)
+                    cur.update(ref=ref, ext=dict(EXTVAL))
+                    out = X.PyRun(res['py']).run(voi=D.VOI, nla=nla, ext=cb, second=second)
             except X.CompileError as ce:
                 rep('values:c-does-not-compile', {'diagnostics': ce.diag[:800]})
                 continue
@@ -338,11 +390,15 @@ def families(opts):
                     rep('external-slot-does-not-hold-callback-value:%s' % prof, {'var': cls, 'got': repr(out['variables'][ix])})
             if dep_classes and ext_index:
                 (eix, ecls), = list(ext_index.items())[:1]
-                last = [c for c in calls if c[0] == eix]
-                if last:
+                # the last invocation at each evaluation point, judged against the reference of that point
+                lasts = [[c for c in calls if c[0] == eix and c[2] is rf][-1:] for rf in (ref, ref2) if rf is not None]
+                for last in lasts:
                     for dc in dep_classes:
+                        if not last:
+                            continue
+                        rf = last[-1][2]
                         snap = last[-1][1].get(dc)
-                        want = ref[dc][0] if isinstance(ref[dc], tuple) else ref[dc]
+                        want = rf[dc][0] if isinstance(rf[dc], tuple) else rf[dc]
                         if snap is None or not X.close(snap, want):
                             rep('callback-invoked-before-declared-dependency-is-computed:%s:%s-depends-on-%s%s' % (prof, kinds[ecls], kinds[dc], ':two-dependencies' if len(dep_classes) > 1 else ''),
                                 {'dependency': dc, 'dependency_slot': repr(snap), 'want': repr(want)})
@@ -379,6 +435,9 @@ def families(opts):
                         rep('values:%s:state-or-rate-wrong' % prof, {'var': i, 'got': [repr(out['states'][ix]), repr(out['rates'][ix])], 'want': [repr(x) for x in ref[i]]})
                 elif not X.close(out[a][ix], ref[i]):
                     rep('values:%s:value-wrong:%s' % (prof, kinds[i]), {'var': i, 'got': repr(out[a][ix]), 'want': repr(ref[i])})
+                elif ref2 is not None and 'second' in out and not X.close(out['second'][a][ix], ref2[i]):
+                    rep('values:%s:stale-after-the-states-moved:%s' % (prof, kinds[i]),
+                        {'var': i, 'got': repr(out['second'][a][ix]), 'want': repr(ref2[i]), 'at-first-point': repr(out[a][ix]), 'external-answers-differently': cur['ext'] != EXTVAL})
 
     def show(ci):
         case = r.cases()[ci]
@@ -388,7 +447,12 @@ def families(opts):
 
     import atexit
     atexit.register(r.cleanup)
-    return [Family('ext', lambda: len(r.cases()), run_ext, show)]
+    def show_sdep(ci):
+        case = r.sdep_cases()[ci]
+        dsc = describe(case)
+        dsc['document'] = D.Layout(case[0], case[1], case[2]).render()
+        return dsc
+    return [Family('ext', lambda: len(r.cases()), run_ext, show), Family('sdep', lambda: len(r.sdep_cases()), run_sdep, show_sdep)]
 
 
 if __name__ == '__main__':
